@@ -11,3 +11,119 @@ package hmac
 //@   pure
 //@   ensures result ==> bytes_eq(mac1, mac2)
 //@   ensures bytes_eq(mac1, mac2) ==> result
+
+// ---- pooled HMAC (C18) ----
+
+// The hashes' own marshaling (encoding.BinaryMarshaler of crypto/sha1, crypto/sha256), as an interface contract.
+//@ func marshalable.MarshalBinary(h)
+//@   pure
+//@   allocates
+//@   ensures result1 == nil ==> fresh(result0) && mvalid(result0, gmap(hkind)[errval(h)]) && mstate(result0) == gmap(hstate)[errval(h)]
+//@ func marshalable.UnmarshalBinary(h, b)
+//@   assigns gmap(hstate)[errval(h)]
+//@   ensures mvalid(b, gmap(hkind)[errval(h)]) ==> result == nil
+//@   ensures result == nil ==> gmap(hstate)[errval(h)] == old(mstate(b))
+
+//@ define HKind(x) = gmap(hkind)[errval(x)]
+//@ define HState(x) = gmap(hstate)[errval(x)]
+//@ define HSize(x) = gmap(hsize)[errval(x)]
+//@ define HBlock(x) = gmap(hblock)[errval(x)]
+
+// HmacOK(h): the two hashes exist, are different objects of the same kind with sane sizes, and the pad
+// buffers do not overlap each other.
+//@ define HmacOK(h) = h != nil && h.inner != nil && h.outer != nil && errval(h.inner) != errval(h.outer)
+//@   | && HKind(h.inner) == HKind(h.outer) && HSize(h.inner) == HSize(h.outer) && HBlock(h.inner) == HBlock(h.outer)
+//@   | && 0 < HSize(h.inner) && HSize(h.inner) <= HBlock(h.inner) && HBlock(h.inner) <= 64 && HSize(h.inner) <= 64
+//@   | && (region(h.ipad) != region(h.opad) || region(h.ipad) == 0)
+//@   | && (h.marshaled ==> implements(h.inner, "github.com/pion/stun/v3/internal/hmac.marshalable") && implements(h.outer, "github.com/pion/stun/v3/internal/hmac.marshalable")
+//@   |       && mvalid(h.ipad, HKind(h.inner)) && mvalid(h.opad, HKind(h.outer)))
+// InnerStart/OuterStart: the abstract state "hash after absorbing the pad", however it is stored
+//@ define InnerStart(h) = ite(h.marshaled, mstate(h.ipad), seqapp(0, h.ipad))
+//@ define OuterStart(h) = ite(h.marshaled, mstate(h.opad), seqapp(0, h.opad))
+// Keyed(h, key): the pads are those of RFC 2104 for this key
+//@ define Keyed(h, kind, key, B, hsz) = InnerStart(h) == hmac_ipadseq(kind, key, B, hsz) && OuterStart(h) == hmac_opadseq(kind, key, B, hsz)
+
+//@ func (*hmac).Write
+//@   safety C18
+//@   props C18 C04
+//@   requires HmacOK(h)
+//@   assigns gmap(hstate)[errval(h.inner)]
+//@   ensures result0 == len(p) && result1 == nil
+//@   ensures HState(h.inner) == old(seqapp(HState(h.inner), p))
+
+//@ func (*hmac).Size
+//@   safety C18
+//@   props C18
+//@   pure
+//@   requires h != nil && h.outer != nil
+//@   ensures result == HSize(h.outer)
+//@ func (*hmac).BlockSize
+//@   safety C18
+//@   props C18
+//@   pure
+//@   requires h != nil && h.inner != nil
+//@   ensures result == HBlock(h.inner)
+
+// Sum: in ++ H(OuterStart || H(inner state)); the inner state (hence further Writes and Sums) is unaffected.
+//@ func (*hmac).Sum
+//@   safety C18
+//@   props C18 C04
+//@   requires HmacOK(h) && region(in) != region(h.opad) && region(in) != region(h.ipad)
+//@   assigns in[len(in):min(cap(in), len(in) + 64)], gmap(hstate)[errval(h.outer)]
+//@   allocates
+//@   ensures len(result) == len(in) + HSize(h.outer)
+//@   ensures (region(result) == region(in) && off(result) == off(in)) || fresh(result)
+//@   ensures forall(i, 0, len(in), result[i] == old(in[i]))
+//@   ensures forall(i, 0, HSize(h.outer), result[len(in) + i] == digbyte(HKind(h.outer), old(seqapp(OuterStart(h), digarr(HKind(h.inner), HState(h.inner))[0:HSize(h.inner)])), i))
+
+// Reset: back to "just keyed" (the inner state is InnerStart again); the first Reset of a keyed object may
+// switch the representation of the pads to marshaled hash states, which must denote the same abstract states.
+//@ func (*hmac).Reset
+//@   safety C18
+//@   props C18
+//@   requires HmacOK(h) && (h.marshaled || len(h.ipad) == HBlock(h.inner) && len(h.opad) == HBlock(h.inner))
+//@   assigns h.ipad, h.opad, h.marshaled, gmap(hstate)[errval(h.inner)], gmap(hstate)[errval(h.outer)]
+//@   allocates
+//@   ensures HmacOK(h)
+//@   ensures InnerStart(h) == old(InnerStart(h)) && OuterStart(h) == old(OuterStart(h))
+//@   ensures HState(h.inner) == InnerStart(h)
+//@   ensures h.marshaled || len(h.ipad) == HBlock(h.inner) && len(h.opad) == HBlock(h.inner)
+
+// resetTo(key): from ANY prior state of a recycled object (whatever key, pad length, marshaled flag it had),
+// the object becomes exactly "keyed with key, nothing written" per RFC 2104.
+//@ func (*hmac).resetTo
+//@   safety C18
+//@   props C18 C04
+//@   requires h != nil && h.inner != nil && h.outer != nil && errval(h.inner) != errval(h.outer)
+//@   requires HKind(h.inner) == HKind(h.outer) && HSize(h.inner) == HSize(h.outer) && HBlock(h.inner) == HBlock(h.outer)
+//@   requires 0 < HSize(h.inner) && HSize(h.inner) <= HBlock(h.inner) && HBlock(h.inner) <= 64
+//@   requires (region(h.ipad) != region(h.opad) || region(h.ipad) == 0) && region(key) != region(h.ipad) && region(key) != region(h.opad)
+//@   assigns h.ipad, h.opad, h.marshaled, mem(h.ipad), mem(h.opad), gmap(hstate)[errval(h.inner)], gmap(hstate)[errval(h.outer)]
+//@   allocates
+//@   ensures HmacOK(h) && !h.marshaled && len(h.ipad) == HBlock(h.inner) && len(h.opad) == HBlock(h.inner)
+//@   ensures forall(j, 0, HBlock(h.inner), h.ipad[j] == xor8(old(K0b(HKind(h.inner), key, HBlock(h.inner), HSize(h.inner), j)), 0x36))
+//@   ensures forall(j, 0, HBlock(h.inner), h.opad[j] == xor8(old(K0b(HKind(h.inner), key, HBlock(h.inner), HSize(h.inner), j)), 0x5c))
+//@   ensures HState(h.inner) == seqapp(0, h.ipad)
+//@   ensures region(h.ipad) == old(region(h.ipad)) || fresh(h.ipad)
+//@   ensures region(h.opad) == old(region(h.opad)) || fresh(h.opad)
+//@   -- proof steps (key is the effective key here: the argument, or its digest when longer than the block; p_key the argument)
+//@   assert region(key) != region(h.ipad) && region(key) != region(h.opad) && region(h.ipad) != region(h.opad)
+//@   assert len(key) <= HBlock(h.inner) && len(h.opad) == HBlock(h.inner) && len(h.ipad) == HBlock(h.inner)
+//@   assert forall(j, 0, len(h.opad), h.opad[j] == xor8(ite(j < len(key), key[j], 0), 0x5c))
+//@   assert forall(j, 0, len(h.ipad), h.ipad[j] == xor8(ite(j < len(key), key[j], 0), 0x36))
+//@   assert old(len(p_key)) <= HBlock(h.inner) ==> sameslice(key, p_key) && forall(j, 0, len(key), key[j] == old(p_key[j]))
+//@   assert old(len(p_key)) > HBlock(h.inner) ==> len(key) == HSize(h.inner) && forall(j, 0, len(key), key[j] == digbyte(HKind(h.inner), old(seqapp(0, p_key)), j))
+//@   loop 0
+//@     assigns mem(h.ipad)
+//@     invariant -1 <= rangeindex && (rangeindex < len(h.ipad) || len(h.ipad) == 0 && rangeindex == -1)
+//@     invariant forall(j, 0, rangeindex + 1, h.ipad[j] == xor8(loopold(h.ipad[j]), 0x36))
+//@     invariant forall(j, rangeindex + 1, len(h.ipad), h.ipad[j] == loopold(h.ipad[j]))
+//@     invariant region(h.ipad) != region(h.opad) && forall(j, 0, len(h.opad), h.opad[j] == loopold(h.opad[j]))
+//@     decreases len(h.ipad) - rangeindex
+//@   loop 1
+//@     assigns mem(h.opad)
+//@     invariant -1 <= rangeindex && (rangeindex < len(h.opad) || len(h.opad) == 0 && rangeindex == -1)
+//@     invariant forall(j, 0, rangeindex + 1, h.opad[j] == xor8(loopold(h.opad[j]), 0x5c))
+//@     invariant forall(j, rangeindex + 1, len(h.opad), h.opad[j] == loopold(h.opad[j]))
+//@     invariant region(h.ipad) != region(h.opad) && forall(j, 0, len(h.ipad), h.ipad[j] == loopold(h.ipad[j]))
+//@     decreases len(h.opad) - rangeindex
